@@ -106,7 +106,14 @@ class Ctx:
             if b is None or b.kind != "Closure" or _cfg.back_edges(b):
                 return False
             t1 = b.local_ty(1)          # `&{closure}`: an `Fn` closure - it cannot write through its captures
-            return t1 is not None and t1.k == "ref" and not t1.d.get("mut")
+            if t1 is not None and t1.k == "ref" and not t1.d.get("mut"):
+                return True
+            # a by-value (`FnOnce`) closure that captured only shared references / plain values
+            # cannot write through its captures either
+            if t1 is not None and t1.k == "closure":
+                ups = [fb.ty(u) for u in t1.d.get("upvars", [])]
+                return all(not (u.k == "ref" and u.d.get("mut")) and u.k not in ("rawptr",) for u in ups)
+            return False
 
         self.fresh_pure = fresh_pure
         self.wrap = Engine(fb, inline=wp)
@@ -142,7 +149,7 @@ class Ctx:
         self.api = Engine(fb, inline=helper)
         # big-integer view: inline the Integer wrapper, the group constants and the key
         # wrappers' as_bigint, plus pure structure; stop at every other crate function
-        self.big = Engine(fb, inline=lambda path, depth: path.startswith("bigint::") or path.startswith("<bigint::") or path.startswith("primes::") or path.startswith("<primes::") or path.endswith("::as_bigint") or wp(path, depth))
+        self.big = Engine(fb, inline=lambda path, depth: path.startswith("bigint::") or path.startswith("<bigint::") or path.startswith("<&bigint::") or path.startswith("<&mut bigint::") or path.startswith("primes::") or path.startswith("<primes::") or path.endswith("::as_bigint") or wp(path, depth))
 
     def has(self, path):
         return path in self.fb.bodies
